@@ -108,6 +108,9 @@ def build_model(d, two_sheets=None, max_formulas=11, names=False):
             v = base + 2 * i + (0.5 if d.pick(6) == 0 else 0)
             if d.pick(7) == 0:
                 v = -v
+            if i and d.pick(9) == 0:
+                # a ZERO constant is not a blank cell (MIN, MAX, IF tell)
+                v = 0
             inputs['Sheet1!' + slot] = v
     formulas = {}
     order = []
